@@ -1,10 +1,12 @@
 use super::binding::{SoapBinding, SoapOperation};
 use crate::{
     error::{WriterError, WriterResult},
-    model::{TryFromNode, field::resolve_type},
+    model::{
+        TryFromNode,
+        field::{as_field_name, resolve_type},
+    },
     reader::WriteXml,
 };
-use inflector::cases::snakecase::to_snake_case;
 use reqwest::Url;
 use std::{io, rc::Rc};
 
@@ -97,7 +99,7 @@ where
     W: io::Write,
 {
     // generate an async fn for the operation
-    let rust_fn_name = to_snake_case(operation_name);
+    let rust_fn_name = as_field_name(operation_name);
     let request_name = format!("{operation_name}InputEnvelope");
     let response_name = operation
         .output
